@@ -9,6 +9,7 @@ CONSTANTS
   EmptyReq = "empty"
   ModeReq = "mode"
   Variant = "fixed"
+  WithExp = FALSE
   TrackHeld = TRUE
   ReturnsView = TRUE
 INVARIANT Purity
